@@ -185,3 +185,15 @@ def c08(work, tier, seed, replay):
 def c06(work, tier, seed, replay):
     import fam_stream as fs
     return fs.c06(work, tier, seed, replay)
+
+
+@check("C14")
+def c14(work, tier, seed, replay):
+    import fam_api as fa
+    return fa.c14(work, tier, seed)
+
+
+@check("C19")
+def c19(work, tier, seed, replay):
+    import fam_api as fa
+    return fa.c19(work, tier, seed)
